@@ -1,8 +1,16 @@
 // c19: sync (properties C19 and the sync part of C04).
-//   peers    : evaluates the real peer selection on the TLC-generated table (spec/Sync.tla BestPeers)
-//   handlers : calls the real getHighestCommonBlock / getBlocksFromId handlers of a real node over loopback libp2p
-//   offers   : a real node is offered the tip of a peer's chain (honest real node, corrupting or truncating fake
-//              peer) through the real process() path incl. fast / block sync; records features + outcome
+//
+//	peers    : evaluates the real peer selection on the TLC-generated table (spec/Sync.tla BestPeers; ranks, evaluated
+//	           under several monotone embeddings into uint32)
+//	handlers : calls the real getLastBlock / getHighestCommonBlock / getBlocksFromId handlers of a real node over loopback
+//	           libp2p (one server with a block cache of 8 blocks: look-ups go to the database), fixed boundary cases,
+//	           up to 210 ids, unknown / malformed requests
+//	offers   : a real node is offered the tip of a peer's chain (honest real node; fake peer that corrupts, tampers,
+//	           leaves out, reorders or withholds blocks) through the real process() path incl. fast / block sync;
+//	           records features + outcome + finalize events; afterwards the node forges one more block and a twin node
+//	           (same blocks, never offered anything) has to accept it
+//	several honest peers: the in-situ peer selection of the block synchronisation
+//
 // The handler and offer records are validated by spec/trace/SyncTrace.tla.
 //
 // usage: c19 <peers-table.txt> <trace.ndjson> <out.json> <nHandlerCases> <nOffers>
@@ -12,10 +20,10 @@ import (
 	"bufio"
 	"bytes"
 	"context"
+	"encoding/json"
 	"fmt"
 	"math/rand"
 	"os"
-	"regexp"
 	"strconv"
 	"strings"
 	"sync"
@@ -43,12 +51,13 @@ type Out struct {
 	Offers     int            `json:"offers"`
 	Outcomes   map[string]int `json:"outcomes"`
 	Paths      map[string]int `json:"offer_kinds"`
+	Cov        map[string]int `json:"cov"`
 	Errors     []string       `json:"harness_errors"`
 	Violations []Violation    `json:"violations"`
 }
 
 var (
-	out    = &Out{Outcomes: map[string]int{}, Paths: map[string]int{}}
+	out    = &Out{Outcomes: map[string]int{}, Paths: map[string]int{}, Cov: map[string]int{}}
 	mu     sync.Mutex
 	perKey = map[string]int{}
 )
@@ -62,61 +71,108 @@ func viol(key, what string, replay interface{}) {
 	}
 }
 
+func cov(key string, n int) {
+	mu.Lock()
+	out.Cov[key] += n
+	mu.Unlock()
+}
+
+// experimental: sub-checks that are red on the unchanged tree until their finding is triaged (VERIF_EXPERIMENTAL=1)
+var experimental = os.Getenv("VERIF_EXPERIMENTAL") == "1"
+
 func cfg3(network bool) *node.Config {
 	return &node.Config{NVal: 3, Batch: 3, Init: node.ParamSet{PcT: 2, CertT: 2, W: []uint64{1, 1, 1}, Gens: []int{1, 2, 3}}, Now: 200, Network: network}
 }
 
 // ---------------------------------------------------------------- peers table
+// One JSON object per row: t = tips <<rank of maxHeightPrevoted, rank of height, id>>, b = 1 for the peers the specification
+// allows, k = the row is one on which a known wrong rule is certain to be noticed (frequency over all peers, composite key).
+type peerRow struct {
+	T [][3]int `json:"t"`
+	B []int    `json:"b"`
+	K []int    `json:"k"`
+}
+
+// the selection depends on the order of the values only: every row is evaluated under monotone embeddings of the ranks
+// 0..2 into uint32 (pairs: embedding of maxHeightPrevoted, embedding of height)
+var embeddings = [][3]uint32{{0, 1, 2}, {0, 1 << 31, 0xFFFFFFFF}, {0x7FFFFFFF, 0x80000000, 0xFFFFFFFF}, {1, 0xFFFFFFFE, 0xFFFFFFFF}}
+var embPairs = [][2]int{{0, 0}, {1, 1}, {2, 3}, {3, 1}}
+
 func peersTable(path string) {
 	f, err := os.Open(path)
 	if err != nil {
+		out.Errors = append(out.Errors, "peers table: "+err.Error())
 		return
 	}
 	defer f.Close()
-	num := regexp.MustCompile(`\d+`)
 	sc := bufio.NewScanner(f)
 	sc.Buffer(make([]byte, 1<<20), 1<<24)
 	for sc.Scan() {
 		line := sc.Text()
-		if !strings.HasPrefix(line, "<<\"TB\"") {
+		row := &peerRow{}
+		if err := json.Unmarshal([]byte(line), row); err != nil || len(row.T) == 0 || len(row.T) != len(row.B) {
 			continue
-		}
-		// <<"TB", <<<<mhp,h,id>>,...>>, <<b1,b2,..>>>>
-		parts := strings.SplitN(line, ">>>>, <<", 2)
-		if len(parts) != 2 {
-			continue
-		}
-		a := num.FindAllString(parts[0], -1)
-		b := num.FindAllString(parts[1], -1)
-		n := len(b)
-		if len(a) != 3*n {
-			continue
-		}
-		infos := []*lsync.NodeInfo{}
-		for i := 0; i < n; i++ {
-			mhp, _ := strconv.Atoi(a[3*i])
-			h, _ := strconv.Atoi(a[3*i+1])
-			id, _ := strconv.Atoi(a[3*i+2])
-			ni := lsync.NewNodeInfo(uint32(h), uint32(mhp), 2, bytes.Repeat([]byte{byte(id)}, 32))
-			infos = append(infos, ni)
 		}
 		out.PeerRows++
-		for rep := 0; rep < 4; rep++ {
-			got, err := lsync.VerifBestNodeInfo(infos)
-			if err != nil || got == nil {
-				viol("best-peer:error", fmt.Sprintf("peer selection failed on %s: %v", line, err), line)
+		n := len(row.T)
+		if n >= 5 {
+			out.Cov["peers:rows-5-6-peers"]++
+		}
+		maxRank := 0
+		for _, t := range row.T {
+			if t[0] > maxRank {
+				maxRank = t[0]
+			}
+			if t[1] > maxRank {
+				maxRank = t[1]
+			}
+		}
+		if maxRank >= 2 {
+			out.Cov["peers:rows-three-ranks"]++
+		}
+		if len(row.K) == 2 {
+			out.Cov["peers:rows-frequency-over-all-peers-wrong"] += row.K[0]
+			out.Cov["peers:rows-composite-key-wrong"] += row.K[1]
+		}
+		bad := false
+		for _, ep := range embPairs {
+			if bad {
 				break
 			}
-			idx := -1
-			for i, ni := range infos {
-				if ni == got {
-					idx = i
+			em, eh := embeddings[ep[0]], embeddings[ep[1]]
+			infos := []*lsync.NodeInfo{}
+			for i, t := range row.T {
+				ni := lsync.NewNodeInfo(eh[t[1]], em[t[0]], 2, bytes.Repeat([]byte{byte(t[2])}, 32))
+				ni.PeerID = p2p.PeerID(fmt.Sprintf("peer-%d", i))
+				infos = append(infos, ni)
+			}
+			for rep := 0; rep < 3; rep++ {
+				got, err := lsync.VerifBestNodeInfo(infos)
+				out.Cov["peers:evaluations"]++
+				if err != nil || got == nil {
+					viol("best-peer:error", fmt.Sprintf("peer selection failed on %s: %v", line, err), map[string]interface{}{"row": row, "embedding": ep})
+					bad = true
+					break
 				}
-			}
-			if idx < 0 || b[idx] != "1" {
-				viol("best-peer:not-best", fmt.Sprintf("peer selection returned tip (mhp=%d,h=%d,id=%d), which is not among the best by (maxHeightPrevoted, height, most common id): %s",
-					got.VerifMaxHeightPrevoted(), got.VerifHeight(), got.VerifLastBlockID()[0], line), line)
-				break
+				// the answer is judged by its fields (the statement is about the tip that is picked, not about the object):
+				// tips with equal fields are equally good
+				ok := false
+				id := got.VerifLastBlockID()
+				for i, t := range row.T {
+					if row.B[i] == 1 && got.VerifMaxHeightPrevoted() == em[t[0]] && got.VerifHeight() == eh[t[1]] && len(id) == 32 && id[0] == byte(t[2]) {
+						ok = true
+					}
+				}
+				if !ok {
+					first := byte(0)
+					if len(id) > 0 {
+						first = id[0]
+					}
+					viol("best-peer:not-best", fmt.Sprintf("peer selection returned tip (mhp=%d,h=%d,id=%d), which is not among the best by (maxHeightPrevoted, height, most common id): row %s, maxHeightPrevoted ranks -> %v, height ranks -> %v",
+						got.VerifMaxHeightPrevoted(), got.VerifHeight(), first, line, em, eh), map[string]interface{}{"row": row, "embedding": ep})
+					bad = true
+					break
+				}
 			}
 		}
 	}
@@ -145,45 +201,231 @@ func connect(a *p2p.Connection, b *node.Node) error {
 }
 
 // ---------------------------------------------------------------- handlers
-func handlers(w *tj.Writer, r *rand.Rand, cases int) {
-	srv, err := node.New(cfg3(true), nil, 0)
-	if err != nil {
-		out.Errors = append(out.Errors, "handlers: "+err.Error())
-		return
+type server struct {
+	srv   *node.Node
+	cli   *p2p.Connection
+	pid   p2p.PeerID
+	L     int
+	ids   [][]byte
+	index map[string]int
+	chain []int
+	enc   map[string][]byte // block id -> encoding of the block as it was built
+}
+
+func (s *server) close() {
+	if s.cli != nil {
+		s.cli.Stop() //nolint
 	}
-	defer srv.Close()
-	L := 112
-	for s := 1; s <= L; s++ {
-		if _, err := srv.Extend(s, 0); err != nil {
-			out.Errors = append(out.Errors, "handlers: extend: "+err.Error())
-			return
+	if s.srv != nil {
+		s.srv.Close()
+	}
+}
+
+func newServer(L int, cache int) (*server, error) {
+	cfg := cfg3(true)
+	cfg.CacheSize = cache
+	srv, err := node.New(cfg, nil, 0)
+	if err != nil {
+		return nil, err
+	}
+	s := &server{srv: srv, L: L, index: map[string]int{}, enc: map[string][]byte{}}
+	for x := 1; x <= L; x++ {
+		blk, err := srv.Extend(x, x%3%2)
+		if err != nil {
+			s.close()
+			return nil, fmt.Errorf("extend: %v", err)
 		}
+		s.enc[string(blk.Header.ID)] = blk.Encode()
 	}
 	cli, _ := newClient()
 	registerNoop(cli)
 	if err := cli.Start(crypto.RandomBytes(32)); err != nil {
-		out.Errors = append(out.Errors, "handlers: client start: "+err.Error())
-		return
+		s.close()
+		return nil, fmt.Errorf("client start: %v", err)
 	}
-	defer cli.Stop()
+	s.cli = cli
 	if err := connect(cli, srv); err != nil {
-		out.Errors = append(out.Errors, "handlers: connect: "+err.Error())
-		return
+		s.close()
+		return nil, fmt.Errorf("connect: %v", err)
 	}
-	ids := [][]byte{}
-	index := map[string]int{}
-	chain := []int{}
 	for h := 0; h <= L; h++ {
 		hd, err := srv.Chain.DataAccess().GetBlockHeaderByHeight(uint32(h))
 		if err != nil {
-			out.Errors = append(out.Errors, "handlers: "+err.Error())
+			s.close()
+			return nil, err
+		}
+		s.ids = append(s.ids, hd.ID)
+		s.index[string(hd.ID)] = h + 1
+		s.chain = append(s.chain, h+1)
+	}
+	s.pid = srv.Conn.ID()
+	return s, nil
+}
+
+// common sends one getHighestCommonBlock request: abs = abstract ids (height+1 of the server's chain, >= 9000 for ids the
+// server does not have / malformed ids), mal = the request contains malformed ids (it may then be refused as a whole)
+func (s *server) common(w *tj.Writer, abs []int, data []byte, mal int, timeout time.Duration) {
+	ctx, cancel := context.WithTimeout(context.Background(), timeout)
+	resp := s.cli.RequestFrom(ctx, s.pid, lsync.RPCEndpointGetHighestCommonBlock, data)
+	cancel()
+	res := 0
+	if resp.Error() != nil {
+		if mal == 0 {
+			viol("handler:common:error", "getHighestCommonBlock failed: "+resp.Error().Error(), abs)
 			return
 		}
-		ids = append(ids, hd.ID)
-		index[string(hd.ID)] = h + 1
-		chain = append(chain, h+1)
+		res = -2
+	} else if len(resp.Data()) > 0 {
+		rr := &lsync.GetHighestCommonBlockResponse{}
+		if err := rr.Decode(resp.Data()); err != nil {
+			viol("handler:common:decode", err.Error(), abs)
+			return
+		}
+		res = s.index[string(rr.ID)]
+		if len(rr.ID) > 0 && res == 0 {
+			res = -1
+		}
 	}
-	pid := srv.Conn.ID()
+	if abs == nil {
+		abs = []int{}
+	}
+	mu.Lock()
+	w.Emit(map[string]interface{}{"ev": "common", "chain": s.chain, "ids": abs, "res": res, "mal": mal})
+	out.Handler++
+	out.Cov["handler:common:ids-max"] = maxInt(out.Cov["handler:common:ids-max"], len(abs))
+	mu.Unlock()
+}
+
+func maxInt(a, b int) int {
+	if a > b {
+		return a
+	}
+	return b
+}
+
+// blocks sends one getBlocksFromId request: abs = abstract id (>= 9000: not on the server's chain / malformed)
+func (s *server) blocks(w *tj.Writer, abs int, data []byte, timeout time.Duration) {
+	ctx, cancel := context.WithTimeout(context.Background(), timeout)
+	resp := s.cli.RequestFrom(ctx, s.pid, lsync.RPCEndpointGetBlocksFromID, data)
+	cancel()
+	got := []int{}
+	if resp.Error() != nil {
+		if abs < 9000 {
+			viol("handler:blocks:error", "getBlocksFromId failed: "+resp.Error().Error(), abs-1)
+			return
+		}
+	} else if len(resp.Data()) > 0 {
+		br := &lsync.GetBlocksFromIDResponse{}
+		if err := br.Decode(resp.Data()); err != nil {
+			viol("handler:blocks:decode", err.Error(), abs-1)
+			return
+		}
+		for _, b := range br.Blocks {
+			b.Init()
+			x := s.index[string(b.Header.ID)]
+			if x == 0 {
+				x = -1
+			} else if !bytes.Equal(s.enc[string(b.Header.ID)], b.Encode()) {
+				// a block of the chain is the block as it was applied, payload included (look-ups below the cache window
+				// come from the database)
+				x = -1
+			}
+			got = append(got, x)
+		}
+	}
+	mu.Lock()
+	w.Emit(map[string]interface{}{"ev": "blocks", "chain": s.chain, "id": abs, "res": got})
+	out.Handler++
+	if len(got) == 103 {
+		out.Cov["handler:blocks:at-cap"]++
+	}
+	if abs < 9000 && len(got) < 103 {
+		out.Cov["handler:blocks:below-cap"]++
+	}
+	if abs >= 9000 {
+		out.Cov["handler:blocks:unknown-or-malformed-id"]++
+	}
+	mu.Unlock()
+}
+
+func (s *server) last(w *tj.Writer) {
+	ctx, cancel := context.WithTimeout(context.Background(), 5*time.Second)
+	resp := s.cli.RequestFrom(ctx, s.pid, lsync.RPCEndpointGetLastBlock, nil)
+	cancel()
+	if resp.Error() != nil {
+		viol("handler:last:error", "getLastBlock failed: "+resp.Error().Error(), nil)
+		return
+	}
+	res := -1
+	if blk, err := blockchain.NewBlock(resp.Data()); err == nil {
+		if x := s.index[string(blk.Header.ID)]; x > 0 {
+			res = x
+		}
+	}
+	mu.Lock()
+	w.Emit(map[string]interface{}{"ev": "last", "chain": s.chain, "res": res})
+	out.Handler++
+	out.Cov["handler:last"]++
+	mu.Unlock()
+}
+
+func handlers(w *tj.Writer, r *rand.Rand, cases int, cache int, fixed bool) {
+	L := 112
+	s, err := newServer(L, cache)
+	if err != nil {
+		out.Errors = append(out.Errors, "handlers: "+err.Error())
+		return
+	}
+	defer s.close()
+	if cache > 0 && cache < L {
+		cov("handler:servers-with-small-cache", 1)
+	}
+	if fixed {
+		// boundary cases of getBlocksFromId: genesis, around tip - cap, the block below the tip, the tip; an id the server
+		// does not have
+		for _, h := range []int{0, L - 104, L - 103, L - 102, L - 1, L} {
+			s.blocks(w, h+1, (&lsync.GetBlocksFromIDRequest{ID: s.ids[h]}).Encode(), 5*time.Second)
+		}
+		s.blocks(w, 9999, (&lsync.GetBlocksFromIDRequest{ID: crypto.RandomBytes(32)}).Encode(), 5*time.Second)
+		s.last(w)
+		// getHighestCommonBlock with as many ids as a requester of a large network sends (and more)
+		mk := func(hs []int, unknown int, shuffle bool) ([]int, []byte) {
+			req := &lsync.GetHighestCommonBlockRequest{}
+			abs := []int{}
+			for _, h := range hs {
+				req.IDs = append(req.IDs, s.ids[h])
+				abs = append(abs, h+1)
+			}
+			for i := 0; i < unknown; i++ {
+				req.IDs = append(req.IDs, crypto.RandomBytes(32))
+				abs = append(abs, 9000+i)
+			}
+			if shuffle {
+				r.Shuffle(len(abs), func(i, j int) { abs[i], abs[j] = abs[j], abs[i]; req.IDs[i], req.IDs[j] = req.IDs[j], req.IDs[i] })
+			}
+			return abs, req.Encode()
+		}
+		few := []int{}
+		for i := 0; i < 10; i++ {
+			few = append(few, r.Intn(L-20))
+		}
+		all := []int{}
+		for h := 0; h <= L; h++ {
+			all = append(all, h)
+		}
+		dup := []int{}
+		for i := 0; i < 50; i++ {
+			dup = append(dup, 7)
+		}
+		for _, c := range []struct {
+			hs      []int
+			unknown int
+			shuffle bool
+		}{{few, 200, true}, {all, 97, true}, {all, 0, false}, {[]int{L, L - 1, L - 3, L - 6, L - 9, L - 12, L - 15, L - 18, L - 21}, 0, false}, {nil, 5, false}, {dup, 0, false}, {[]int{0}, 204, true}} {
+			abs, data := mk(c.hs, c.unknown, c.shuffle)
+			s.common(w, abs, data, 0, 5*time.Second)
+		}
+	}
 	for c := 0; c < cases; c++ {
 		// getHighestCommonBlock
 		n := 1 + r.Intn(6)
@@ -198,75 +440,84 @@ func handlers(w *tj.Writer, r *rand.Rand, cases int) {
 				if r.Intn(3) == 0 {
 					h = L - r.Intn(3)
 				}
-				req.IDs = append(req.IDs, ids[h])
+				req.IDs = append(req.IDs, s.ids[h])
 				abs = append(abs, h+1)
 			}
 		}
-		ctx, cancel := context.WithTimeout(context.Background(), 5*time.Second)
-		resp := cli.RequestFrom(ctx, pid, lsync.RPCEndpointGetHighestCommonBlock, req.Encode())
-		cancel()
-		res := 0
-		if resp.Error() != nil {
-			viol("handler:common:error", "getHighestCommonBlock failed: "+resp.Error().Error(), abs)
-			continue
-		}
-		if len(resp.Data()) > 0 {
-			rr := &lsync.GetHighestCommonBlockResponse{}
-			if err := rr.Decode(resp.Data()); err != nil {
-				viol("handler:common:decode", err.Error(), abs)
-				continue
-			}
-			res = index[string(rr.ID)]
-			if len(rr.ID) > 0 && res == 0 {
-				res = -1
-			}
-		}
-		w.Emit(map[string]interface{}{"ev": "common", "chain": chain, "ids": abs, "res": res})
-		out.Handler++
+		s.common(w, abs, req.Encode(), 0, 5*time.Second)
 		// getBlocksFromId
 		h := r.Intn(L + 1)
 		if r.Intn(3) == 0 {
 			h = r.Intn(12)
 		}
-		breq := &lsync.GetBlocksFromIDRequest{ID: ids[h]}
-		ctx, cancel = context.WithTimeout(context.Background(), 5*time.Second)
-		resp = cli.RequestFrom(ctx, pid, lsync.RPCEndpointGetBlocksFromID, breq.Encode())
-		cancel()
-		if resp.Error() != nil {
-			viol("handler:blocks:error", "getBlocksFromId failed: "+resp.Error().Error(), h)
-			continue
-		}
-		br := &lsync.GetBlocksFromIDResponse{}
-		got := []int{}
-		if len(resp.Data()) > 0 {
-			if err := br.Decode(resp.Data()); err != nil {
-				viol("handler:blocks:decode", err.Error(), h)
-				continue
-			}
-			for _, b := range br.Blocks {
-				b.Init()
-				x := index[string(b.Header.ID)]
-				if x == 0 {
-					x = -1
-				}
-				got = append(got, x)
-			}
-		}
-		w.Emit(map[string]interface{}{"ev": "blocks", "chain": chain, "id": h + 1, "res": got})
-		out.Handler++
+		s.blocks(w, h+1, (&lsync.GetBlocksFromIDRequest{ID: s.ids[h]}).Encode(), 5*time.Second)
 	}
 }
 
-// ---------------------------------------------------------------- fake peer serving an arbitrary chain
-type fakePeer struct {
-	conn   *p2p.Connection
-	blocks []*blockchain.Block // blocks[0] = genesis
-	trunc  bool                // serve empty segments
+// malformed: one malformed request to a fresh small server (a refusal may ban the requester's address - here the loopback
+// address - so every case gets its own server).  The statement fixes what a handler returns; for a request that names no
+// block the server has there is nothing to return: a refusal (error, no answer, ban) or the answer for the well-formed
+// part of the request are both accepted, blocks / an id the requester did not ask for never.
+func malformed(w *tj.Writer, kind string) {
+	s, err := newServer(6, 0)
+	if err != nil {
+		mu.Lock()
+		out.Errors = append(out.Errors, "malformed "+kind+": "+err.Error())
+		mu.Unlock()
+		return
+	}
+	defer s.close()
+	to := 3 * time.Second
+	switch kind {
+	case "common:nil":
+		s.common(w, nil, nil, 1, to)
+	case "common:garbage":
+		s.common(w, nil, []byte{0xff, 0xff, 0xff, 0x01, 0x02}, 1, to)
+	case "common:empty-ids":
+		s.common(w, nil, (&lsync.GetHighestCommonBlockRequest{}).Encode(), 1, to)
+	case "common:short-id":
+		s.common(w, []int{4, 9001}, (&lsync.GetHighestCommonBlockRequest{IDs: [][]byte{s.ids[3], s.ids[5][:31]}}).Encode(), 1, to)
+	case "common:long-id":
+		s.common(w, []int{9001, 3}, (&lsync.GetHighestCommonBlockRequest{IDs: [][]byte{append(append([]byte{}, s.ids[5]...), 0), s.ids[2]}}).Encode(), 1, to)
+	case "common:empty-id":
+		s.common(w, []int{9001}, (&lsync.GetHighestCommonBlockRequest{IDs: [][]byte{{}}}).Encode(), 1, to)
+	case "blocks:nil":
+		s.blocks(w, 9001, nil, to)
+	case "blocks:garbage":
+		s.blocks(w, 9001, []byte{0xff, 0xff, 0xff, 0x01, 0x02}, to)
+	case "blocks:short-id":
+		s.blocks(w, 9001, (&lsync.GetBlocksFromIDRequest{ID: s.ids[2][:31]}).Encode(), to)
+	case "blocks:long-id":
+		s.blocks(w, 9001, (&lsync.GetBlocksFromIDRequest{ID: append(append([]byte{}, s.ids[2]...), 0)}).Encode(), to)
+	case "blocks:empty-id":
+		s.blocks(w, 9001, (&lsync.GetBlocksFromIDRequest{}).Encode(), to)
+	}
+	cov("handler:malformed-requests", 1)
 }
 
-func newFakePeer(blocks []*blockchain.Block, trunc bool) (*fakePeer, error) {
+var malformedKinds = []string{"common:nil", "common:garbage", "common:empty-ids", "common:short-id", "common:long-id", "common:empty-id",
+	"blocks:nil", "blocks:garbage", "blocks:short-id", "blocks:long-id", "blocks:empty-id"}
+
+// ---------------------------------------------------------------- fake peer serving an arbitrary chain
+type fakePeer struct {
+	conn    *p2p.Connection
+	blocks  []*blockchain.Block // blocks[0] = genesis
+	reverse bool                // serves every segment in descending order
+	mu      sync.Mutex
+	budget  int // blocks still to be served (< 0: no limit); 0 = empty segments
+	// spinning: the same request answered with an empty list again and again
+	emptyRun int
+}
+
+func (fp *fakePeer) emptyAnswers() int {
+	fp.mu.Lock()
+	defer fp.mu.Unlock()
+	return fp.emptyRun
+}
+
+func newFakePeer(blocks []*blockchain.Block, budget int, reverse bool) (*fakePeer, error) {
 	c, _ := newClient()
-	fp := &fakePeer{conn: c, blocks: blocks, trunc: trunc}
+	fp := &fakePeer{conn: c, blocks: blocks, budget: budget, reverse: reverse}
 	find := func(id []byte) int {
 		for i, b := range fp.blocks {
 			if bytes.Equal(b.Header.ID, id) {
@@ -307,9 +558,27 @@ func newFakePeer(blocks []*blockchain.Block, trunc bool) (*fakePeer, error) {
 			w.Error(fmt.Errorf("unknown id"))
 			return
 		}
+		seg := fp.blocks[i+1:]
+		fp.mu.Lock()
+		if fp.budget >= 0 {
+			if len(seg) > fp.budget {
+				seg = seg[:fp.budget]
+			}
+			fp.budget -= len(seg)
+		}
+		if len(seg) == 0 {
+			fp.emptyRun++
+		} else {
+			fp.emptyRun = 0
+		}
+		fp.mu.Unlock()
 		resp := &lsync.GetBlocksFromIDResponse{}
-		if !fp.trunc {
-			resp.Blocks = fp.blocks[i+1:]
+		if fp.reverse {
+			for j := len(seg) - 1; j >= 0; j-- {
+				resp.Blocks = append(resp.Blocks, seg[j])
+			}
+		} else {
+			resp.Blocks = seg
 		}
 		w.Write(resp.Encode())
 	})
@@ -332,83 +601,298 @@ func chainBlocks(n *node.Node) []*blockchain.Block {
 	return res
 }
 
+// replica: a node that was given exactly these blocks (blocks[0] = genesis), one after the other
+func replica(cfg *node.Config, ts uint32, blocks []*blockchain.Block) (*node.Node, error) {
+	n, err := node.New(cfg, nil, ts)
+	if err != nil {
+		return nil, err
+	}
+	for _, blk := range blocks[1:] {
+		if err := n.Ex.VerifProcess(blk, "12D3KooWverifpeer"); err != nil {
+			n.Close()
+			return nil, err
+		}
+	}
+	if !bytes.Equal(n.Tip().Header.ID, blocks[len(blocks)-1].Header.ID) {
+		n.Close()
+		return nil, fmt.Errorf("replica did not reach the tip")
+	}
+	return n, nil
+}
+
+// await runs the synchronisation entry point with a watchdog.  Nothing here depends on the speed of the machine: after
+// 60 s without a result the call gets another 120 s; only a call that still has not returned is reported as a hang.
+// spinning (optional) reports evidence that the call cannot make progress any more (then the wait ends early).
+func await(fn func() error, spinning func() bool) (err error, state string) {
+	done := make(chan error, 1)
+	go func() {
+		defer func() {
+			if e := recover(); e != nil {
+				done <- fmt.Errorf("panic: %v", e)
+			}
+		}()
+		done <- fn()
+	}()
+	deadline := time.After(60 * time.Second)
+	tick := time.NewTicker(500 * time.Millisecond)
+	defer tick.Stop()
+	state = "ok"
+	for {
+		select {
+		case err = <-done:
+			return err, state
+		case <-tick.C:
+			if spinning != nil && spinning() {
+				return nil, "spin"
+			}
+		case <-deadline:
+			if state == "slow" {
+				return nil, "hang"
+			}
+			state = "slow"
+			deadline = time.After(120 * time.Second)
+		}
+	}
+}
+
+type evPair [2]uint32
+
+// finalizeEvents drains the node's events and returns the finalize events in publication order.  Publication is
+// synchronous today; an asynchronous publisher is given a moment to deliver what the stored heights say must come.
+func finalizeEvents(n *node.Node, before, after uint32) []evPair {
+	res := []evPair{}
+	for try := 0; try < 6; try++ {
+		for _, e := range n.Drain() {
+			if e.Kind == "finalize" {
+				res = append(res, evPair{e.A, e.B})
+			}
+		}
+		complete := (len(res) == 0 && before == after) || (len(res) > 0 && res[len(res)-1][1] == after)
+		if complete {
+			break
+		}
+		time.Sleep(100 * time.Millisecond)
+	}
+	return res
+}
+
+type plan struct {
+	P, fa, fb int
+	behaviour string // honest | corrupt | truncate | truncate-partial | tamper | static | gap | reorder
+	lazy      bool
+	cache     int // block cache of both nodes (0 = default 515)
+	now       int // slot of real time
+	serve     int // truncating peer: blocks it serves before it serves nothing
+	ntxOwn    int // > 0: every block of the node's own fork carries that many transactions
+	spoil     int // > 0: the block of the peer's fork (1-based) the middle-block behaviours spoil
+	forced    string
+}
+
+func makePlan(r *rand.Rand, idx int) plan {
+	pl := plan{now: 200}
+	if idx%3 == 0 {
+		pl.cache = 8
+	}
+	pl.P = r.Intn(7)
+	pl.fa = r.Intn(6)
+	pl.fb = 1 + r.Intn(8)
+	if r.Intn(4) == 0 {
+		pl.fb = 8 + r.Intn(8) // far ahead: block sync territory
+	}
+	pl.behaviour = []string{"honest", "honest", "honest", "corrupt", "truncate", "tamper", "static", "gap", "reorder"}[r.Intn(9)]
+	// "lazy" own fork: long, but forged by one validator only (no prevotes), against a shorter peer chain that all
+	// validators signed: the better chain (larger maxHeightPrevoted) lies more than two rounds BELOW the node's tip
+	pl.lazy = r.Intn(5) == 0
+	if pl.lazy {
+		pl.fa = 11 + r.Intn(4)
+		pl.fb = 3 + r.Intn(2)
+		pl.behaviour = "honest"
+		if r.Intn(3) == 0 {
+			// deep: the common block lies 12-16 rounds below the node's tip - beyond the first batch of heights the block
+			// synchronisation samples for the common block, inside what its retries cover
+			pl.fa = 36 + r.Intn(12)
+		}
+	}
+	// directed scenarios: present in every run, whatever the seed
+	near := func(b string) {
+		pl.lazy, pl.behaviour, pl.forced = false, b, b+":near"
+		pl.P, pl.fa, pl.fb = 2+r.Intn(3), 1+r.Intn(2), 4+r.Intn(3)
+	}
+	far := func(b string) {
+		pl.lazy, pl.behaviour, pl.forced = false, b, b+":far"
+		pl.P, pl.fa, pl.fb = 1+r.Intn(3), r.Intn(2), 9+r.Intn(6)
+	}
+	switch idx {
+	case 0:
+		// the peer is more than one download batch (103 blocks) ahead
+		pl.lazy, pl.behaviour, pl.forced = false, "honest", "honest:long"
+		pl.P, pl.fa, pl.fb, pl.now, pl.cache = 1+r.Intn(3), r.Intn(3), 104+r.Intn(117), 700, 8
+	case 1:
+		near("static")
+	case 2:
+		near("tamper")
+	case 3:
+		// two blocks of the peer are applied (none of them can become final), the third is missing: the restoration has to
+		// remove a block above the node's own tip
+		near("gap")
+		pl.fa, pl.spoil = 1, 3
+	case 4:
+		near("reorder")
+	case 5:
+		far("static")
+	case 6:
+		far("reorder")
+	case 7:
+		// restoration of original blocks that carry transactions
+		near("corrupt")
+		pl.fa, pl.ntxOwn = 2+r.Intn(2), 1+r.Intn(2)
+		pl.fb = pl.fa + 2 + r.Intn(2)
+	case 8:
+		near("honest")
+		pl.cache = 8
+	}
+	if pl.behaviour == "truncate" && experimental && pl.fb >= 2 && r.Intn(2) == 0 {
+		pl.behaviour, pl.serve = "truncate-partial", 1+r.Intn(pl.fb-1)
+	}
+	if (pl.behaviour == "tamper" || pl.behaviour == "static" || pl.behaviour == "gap") && pl.fb < 2 {
+		pl.behaviour = "corrupt" // no middle block to spoil
+	}
+	return pl
+}
+
+// specBehaviour: the behaviour class of spec/Sync.tla a scenario behaviour belongs to
+func specBehaviour(b string) string {
+	switch b {
+	case "tamper", "static", "gap":
+		return "corrupt"
+	case "truncate-partial":
+		return "truncate"
+	case "reorder":
+		return "disorder"
+	}
+	return b
+}
+
+func resign(a *node.Node, hdr *blockchain.BlockHeader, nval int) {
+	gen := 0
+	for id := 1; id <= nval; id++ {
+		if bytes.Equal(node.Validator(id).Address, hdr.GeneratorAddress) {
+			gen = id
+		}
+	}
+	hdr.Sign(a.ChainID, node.Validator(gen).PrivKey)
+}
+
 func offer(w *tj.Writer, r *rand.Rand, idx int) {
+	pl := makePlan(r, idx)
 	cfg := cfg3(true)
+	cfg.Now, cfg.CacheSize = pl.now, pl.cache
 	ts := uint32(time.Now().Unix()) - uint32(cfg.Now)*node.BlockTime - node.BlockTime/2
+	fail := func(e error) {
+		mu.Lock()
+		out.Errors = append(out.Errors, fmt.Sprintf("offer %d (%s): %v", idx, pl.behaviour, e))
+		mu.Unlock()
+	}
 	a, err := node.New(cfg, nil, ts)
 	if err != nil {
-		mu.Lock()
-		out.Errors = append(out.Errors, "offer: "+err.Error())
-		mu.Unlock()
+		fail(err)
 		return
 	}
 	defer a.Close()
 	bcfg := cfg3(true)
+	bcfg.Now, bcfg.CacheSize = pl.now, pl.cache
 	b, err := node.New(bcfg, nil, ts)
 	if err != nil {
+		fail(err)
 		return
 	}
 	defer b.Close()
-	P := r.Intn(7)
-	fa := r.Intn(6)
-	fb := 1 + r.Intn(8)
-	if r.Intn(4) == 0 {
-		fb = 8 + r.Intn(8) // far ahead: block sync territory
-	}
-	behaviour := []string{"honest", "honest", "corrupt", "truncate"}[r.Intn(4)]
-	// "lazy" own fork: long, but forged by one validator only (no prevotes), against a shorter peer chain that all
-	// validators signed: the better chain (larger maxHeightPrevoted) lies more than two rounds BELOW the node's tip
-	lazy := r.Intn(5) == 0
-	if lazy {
-		fa = 11 + r.Intn(4)
-		fb = 3 + r.Intn(2)
-		behaviour = "honest"
-		if r.Intn(3) == 0 {
-			// deep: the common block lies 12-16 rounds below the node's tip - beyond the first batch of heights the block
-			// synchronisation samples for the common block, inside what its retries cover
-			fa = 36 + r.Intn(12)
-		}
-	}
+	P, fa, fb, behaviour := pl.P, pl.fa, pl.fb, pl.behaviour
+	// the blocks as they were built (what the nodes' own look-ups return is part of what is being checked)
+	origBlocks := []*blockchain.Block{a.Genesis}
+	peerBlocks := []*blockchain.Block{b.Genesis}
 	slot := 1
-	fail := func(e error) {
-		mu.Lock()
-		out.Errors = append(out.Errors, fmt.Sprintf("offer %d: %v", idx, e))
-		mu.Unlock()
-	}
 	for i := 0; i < P; i++ {
-		if _, err := a.Extend(slot, 0); err != nil {
+		blk, err := a.Extend(slot, 0)
+		if err != nil {
 			fail(err)
 			return
 		}
-		if _, err := b.Extend(slot, 0); err != nil {
+		origBlocks = append(origBlocks, blk)
+		blk, err = b.Extend(slot, 0)
+		if err != nil {
 			fail(err)
 			return
 		}
+		peerBlocks = append(peerBlocks, blk)
 		slot++
 	}
 	sa, sb := slot, slot+1
+	ownTxs := 0
 	for i := 0; i < fa; i++ {
-		if _, err := a.Extend(sa, 0); err != nil {
+		// the node's own fork carries transactions: these are the blocks a failed fast sync has to put back
+		ntx := r.Intn(3)
+		if pl.ntxOwn > 0 {
+			ntx = pl.ntxOwn
+		}
+		ownTxs += ntx
+		blk, err := a.Extend(sa, ntx)
+		if err != nil {
 			fail(err)
 			return
 		}
-		if lazy {
+		origBlocks = append(origBlocks, blk)
+		if pl.lazy {
 			sa += 3 // always the same validator's slot
 		} else {
 			sa += 1 + r.Intn(2)*3
 		}
 	}
+	// the block of the peer's fork (1-based, never the last one) that is spoiled by the middle-block behaviours
+	spoil := 0
+	if behaviour == "tamper" || behaviour == "static" || behaviour == "gap" {
+		spoil = 1 + r.Intn(fb-1)
+		if pl.spoil > 0 && pl.spoil < fb {
+			spoil = pl.spoil
+		}
+	}
 	for i := 0; i < fb; i++ {
-		if _, err := b.Extend(sb, i%2); err != nil {
-			fail(err)
-			return
+		if behaviour == "static" && i+1 == spoil {
+			// a block with a statically invalid transaction (module name), consistent roots, signed by the slot's generator:
+			// nothing but Block.Validate() rejects it.  The peer's node is made to apply it (validation skipped) and builds on it.
+			c, err := b.AutoCand(sb, 2)
+			if err != nil {
+				fail(err)
+				return
+			}
+			c.TxStatic = "bad"
+			blk := b.Build(c)
+			if blk.Validate() == nil {
+				fail(fmt.Errorf("the statically invalid block passes Validate"))
+				return
+			}
+			if err := b.Ex.VerifProcessValidated(blk, false, false); err != nil {
+				fail(fmt.Errorf("statically invalid block not applicable on the peer: %v", err))
+				return
+			}
+			peerBlocks = append(peerBlocks, blk)
+		} else {
+			blk, err := b.Extend(sb, i%2)
+			if err != nil {
+				fail(err)
+				return
+			}
+			peerBlocks = append(peerBlocks, blk)
 		}
 		sb += 1
-		if r.Intn(3) == 0 {
+		if pl.forced != "honest:long" && r.Intn(3) == 0 {
 			sb += 3
 		}
 	}
-	peerBlocks := chainBlocks(b)
+	if len(peerBlocks) != P+fb+1 || !bytes.Equal(peerBlocks[P+fb].Header.ID, b.Tip().Header.ID) || !bytes.Equal(origBlocks[len(origBlocks)-1].Header.ID, a.Tip().Header.ID) {
+		fail(fmt.Errorf("chains were not built as planned"))
+		return
+	}
 	var peerID p2p.PeerID
 	var fp *fakePeer
 	corruptAt := 0
@@ -420,7 +904,9 @@ func offer(w *tj.Writer, r *rand.Rand, idx int) {
 		}
 		peerID = b.Conn.ID()
 	default:
-		if behaviour == "corrupt" {
+		budget := -1
+		switch behaviour {
+		case "corrupt":
 			// the last block of the served chain carries a state root that does not match its execution (re-signed)
 			corruptAt = P + 1 + r.Intn(fb)
 			peerBlocks = peerBlocks[:corruptAt+1]
@@ -435,16 +921,45 @@ func offer(w *tj.Writer, r *rand.Rand, idx int) {
 				sr[0] ^= 0xff
 				hdr.StateRoot = sr
 			}
-			gen := 0
-			for id := 1; id <= cfg.NVal; id++ {
-				if bytes.Equal(node.Validator(id).Address, hdr.GeneratorAddress) {
-					gen = id
+			resign(a, &hdr, cfg.NVal)
+			peerBlocks[corruptAt] = &blockchain.Block{Header: &hdr, Transactions: last.Transactions, Assets: last.Assets}
+		case "tamper":
+			// header untouched, payload not: a transaction is taken out of / put into a block in the middle of the segment
+			corruptAt = P + spoil
+			old := peerBlocks[corruptAt]
+			txs := append([]*blockchain.Transaction{}, old.Transactions...)
+			if len(txs) > 0 {
+				txs = txs[1:]
+			} else {
+				for _, o := range peerBlocks[P+1:] {
+					if len(o.Transactions) > 0 {
+						txs = append(txs, o.Transactions[0])
+						break
+					}
+				}
+				if len(txs) == 0 {
+					fail(fmt.Errorf("no transaction to put into the tampered block"))
+					return
 				}
 			}
-			hdr.Sign(a.ChainID, node.Validator(gen).PrivKey)
-			peerBlocks[corruptAt] = &blockchain.Block{Header: &hdr, Transactions: last.Transactions, Assets: last.Assets}
+			peerBlocks = append([]*blockchain.Block{}, peerBlocks...)
+			peerBlocks[corruptAt] = &blockchain.Block{Header: old.Header, Transactions: txs, Assets: old.Assets}
+			if peerBlocks[corruptAt].Validate() == nil {
+				fail(fmt.Errorf("the tampered block passes Validate"))
+				return
+			}
+		case "static":
+			corruptAt = P + spoil
+		case "gap":
+			// a block in the middle of the segment is never served
+			corruptAt = P + spoil
+			peerBlocks = append(append([]*blockchain.Block{}, peerBlocks[:corruptAt]...), peerBlocks[corruptAt+1:]...)
+		case "truncate":
+			budget = 0
+		case "truncate-partial":
+			budget = pl.serve
 		}
-		fp, err = newFakePeer(peerBlocks, behaviour == "truncate")
+		fp, err = newFakePeer(peerBlocks, budget, behaviour == "reorder")
 		if err != nil {
 			fail(err)
 			return
@@ -473,36 +988,35 @@ func offer(w *tj.Writer, r *rand.Rand, idx int) {
 	finHdr, _ := a.Chain.DataAccess().GetBlockHeaderByHeight(before.Fin)
 	offered := peerBlocks[len(peerBlocks)-1]
 	common := uint32(P)
-	if fa == 0 && uint32(len(peerBlocks)-1) >= aTip.Height {
-		common = aTip.Height
-	}
 	f := map[string]interface{}{
 		"a": map[string]uint32{"h": aTip.Height, "mhp": aTip.MaxHeightPrevoted}, "b": map[string]uint32{"h": offered.Header.Height, "mhp": offered.Header.MaxHeightPrevoted},
 		"common": common, "fin": before.Fin, "n": 3, "genKnown": 1,
-		"slotGap": a.Slot.GetSlotNumber(uint32(time.Now().Unix())) - a.Slot.GetSlotNumber(finHdr.Timestamp),
-		"behaviour": behaviour,
+		"slotGap":   a.Slot.GetSlotNumber(uint32(time.Now().Unix())) - a.Slot.GetSlotNumber(finHdr.Timestamp),
+		"behaviour": specBehaviour(behaviour),
 		"child":     tj.B(offered.Header.Height == aTip.Height+1 && bytes.Equal(offered.Header.PreviousBlockID, aTip.ID)),
 	}
-	scenario := map[string]interface{}{"P": P, "forkA": fa, "forkB": fb, "behaviour": behaviour, "corruptAt": corruptAt, "features": f}
-	done := make(chan error, 1)
-	go func() {
-		defer func() {
-			if e := recover(); e != nil {
-				done <- fmt.Errorf("panic: %v", e)
-			}
-		}()
-		done <- a.Ex.VerifProcess(offered, peerID)
-	}()
-	var perr error
-	select {
-	case perr = <-done:
-	case <-time.After(60 * time.Second):
-		viol("hang:sync:"+behaviour, fmt.Sprintf("process() of a block offered by a %s peer did not return within 60 s (sync never terminates)", behaviour), scenario)
+	scenario := map[string]interface{}{"P": P, "forkA": fa, "forkB": fb, "behaviour": behaviour, "corruptAt": corruptAt, "served": pl.serve, "cache": pl.cache,
+		"ownTransactions": ownTxs, "forced": pl.forced, "features": f}
+	a.Drain()
+	var spinning func() bool
+	if fp != nil && behaviour == "truncate-partial" {
+		spinning = func() bool { return fp.emptyAnswers() >= tj.EnvInt("VERIF_SPIN_REQUESTS", 100) }
+	}
+	perr, state := await(func() error { return a.Ex.VerifProcess(offered, peerID) }, spinning)
+	if state == "hang" || state == "spin" {
+		what := fmt.Sprintf("process() of a block offered by a %s peer did not return within 180 s (sync never terminates)", behaviour)
+		if state == "spin" {
+			what = fmt.Sprintf("process() of a block offered by a peer that serves %d block(s) of the segment and then empty lists does not return: the download loop repeats the same getBlocksFromId request (%d identical requests answered with an empty list so far, 10 per second) - the synchronisation never terminates", pl.serve, fp.emptyAnswers())
+		}
+		viol("hang:sync:"+behaviour, what, scenario)
 		mu.Lock()
 		out.Offers++
 		out.Outcomes["hang"]++
 		mu.Unlock()
 		return
+	}
+	if state == "slow" {
+		cov("offers:slower-than-60s", 1)
 	}
 	if perr != nil && strings.HasPrefix(perr.Error(), "panic:") {
 		viol("panic:sync", perr.Error(), scenario)
@@ -513,6 +1027,7 @@ func offer(w *tj.Writer, r *rand.Rand, idx int) {
 		viol("observe-after-sync", err.Error(), scenario)
 		return
 	}
+	finEvents := finalizeEvents(a, before.Fin, after.Fin)
 	tip := a.Tip().Header
 	outcome := "partial"
 	if bytes.Equal(tip.ID, offered.Header.ID) {
@@ -539,12 +1054,102 @@ func offer(w *tj.Writer, r *rand.Rand, idx int) {
 	} else {
 		kind = "near"
 	}
+	// ---- the node goes on from where it ended: it forges its next block; a node that always had exactly the chain the
+	// node ended on accepts that block; after a restoration the database equals the one of a twin that was never
+	// offered anything (compared when the finalized height did not move: finality reached on the way stays)
+	ext := map[string]int{"extended": -1, "twin": -1, "dump": -1}
+	sameDump := func(n1, n2 *node.Node, when string) {
+		d1, d2 := n1.Dump(), n2.Dump()
+		if ext["dump"] != 0 {
+			ext["dump"] = 1
+		}
+		if len(d1) != len(d2) {
+			ext["dump"] = 0
+			scenario["rows:"+when] = []int{len(d1), len(d2)}
+		}
+		for i := 0; i < len(d1) && i < len(d2); i++ {
+			if d1[i] != d2[i] {
+				ext["dump"] = 0
+				scenario["firstDifferingRow:"+when] = []string{d1[i], d2[i]}
+				break
+			}
+		}
+	}
+	var twin *node.Node
+	if strings.HasPrefix(outcome, "own") {
+		tcfg := cfg3(false)
+		tcfg.Now, tcfg.CacheSize = pl.now, pl.cache
+		var terr error
+		twin, terr = replica(tcfg, ts, origBlocks)
+		if terr != nil {
+			fail(fmt.Errorf("twin: %v", terr))
+			return
+		}
+		defer twin.Close()
+		if after.Fin == before.Fin {
+			sameDump(a, twin, "restored")
+		}
+	}
+	nb, xerr := a.Extend(pl.now-5, 1)
+	if xerr != nil {
+		ext["extended"] = 0
+		scenario["extendError"] = xerr.Error()
+	} else {
+		ext["extended"] = 1
+		switch {
+		case twin != nil:
+			if err := twin.Ex.VerifProcess(nb, "12D3KooWverifpeer"); err != nil || !bytes.Equal(twin.Tip().Header.ID, nb.Header.ID) {
+				ext["twin"] = 0
+				scenario["twinError"] = fmt.Sprint(err)
+			} else {
+				ext["twin"] = 1
+				if after.Fin == before.Fin {
+					sameDump(a, twin, "extended")
+				}
+			}
+		case outcome == "peer" && bytes.Equal(offered.Header.ID, b.Tip().Header.ID):
+			// the peer's own node is the node that always had this chain
+			if err := b.Ex.VerifProcess(nb, "12D3KooWverifpeer"); err != nil || !bytes.Equal(b.Tip().Header.ID, nb.Header.ID) {
+				ext["twin"] = 0
+				scenario["twinError"] = fmt.Sprint(err)
+			} else {
+				ext["twin"] = 1
+			}
+		}
+	}
 	mu.Lock()
 	out.Offers++
 	out.Outcomes[outcome]++
 	out.Paths[kind+":"+behaviour]++
+	if pl.forced != "" {
+		out.Cov["forced:"+pl.forced+":"+outcome]++
+	}
+	if pl.cache > 0 {
+		out.Cov["offers:small-cache"]++
+		if outcome == "peer" {
+			out.Cov["offers:small-cache:peer"]++
+		}
+	}
+	if fb > 103 && outcome == "peer" {
+		out.Cov["offers:second-download-batch"]++
+	}
+	if strings.HasPrefix(outcome, "own+ban") && kind == "near" && ownTxs > 0 && f["behaviour"] == "corrupt" {
+		out.Cov["offers:restored-blocks-with-transactions"]++
+	}
+	for _, k := range []string{"extended", "twin", "dump"} {
+		if ext[k] == 1 {
+			out.Cov["ext:"+k]++
+		}
+	}
+	if ext["dump"] == 1 && strings.HasSuffix(outcome, "+ban") {
+		out.Cov["ext:dump-after-restore"]++
+	}
+	if len(finEvents) > 0 {
+		out.Cov["finalize-events:offers-with-raise"]++
+		out.Cov["finalize-events:events"] += len(finEvents)
+	}
 	w.Emit(map[string]interface{}{"ev": "offer", "f": f, "outcome": outcome, "finBefore": before.Fin, "finAfter": after.Fin, "finalIdsSame": same,
-		"scenario": scenario, "err": fmt.Sprint(perr), "temp": after.Temp})
+		"scenario": scenario, "err": fmt.Sprint(perr), "temp": after.Temp, "finEvents": finEvents, "mhpcAfter": after.Mhpc, "ext": ext})
 	mu.Unlock()
 	if outcome == "own" || outcome == "own+ban" {
 		// the original blocks are restored and no temporary block is left behind
@@ -565,13 +1170,7 @@ func corruptLast(a *node.Node, blocks []*blockchain.Block, at int, nval int) []*
 	sr := append([]byte{}, hdr.StateRoot...)
 	sr[0] ^= 0xff
 	hdr.StateRoot = sr
-	gen := 0
-	for id := 1; id <= nval; id++ {
-		if bytes.Equal(node.Validator(id).Address, hdr.GeneratorAddress) {
-			gen = id
-		}
-	}
-	hdr.Sign(a.ChainID, node.Validator(gen).PrivKey)
+	resign(a, &hdr, nval)
 	res[at] = &blockchain.Block{Header: &hdr, Transactions: last.Transactions, Assets: last.Assets}
 	return res
 }
@@ -586,21 +1185,11 @@ func offerFrom(a *node.Node, fp *fakePeer) (error, bool) {
 		return err, false
 	}
 	time.Sleep(50 * time.Millisecond)
-	done := make(chan error, 1)
-	go func() {
-		defer func() {
-			if e := recover(); e != nil {
-				done <- fmt.Errorf("panic: %v", e)
-			}
-		}()
-		done <- a.Ex.VerifProcess(fp.blocks[len(fp.blocks)-1], fp.conn.ID())
-	}()
-	select {
-	case e := <-done:
-		return e, true
-	case <-time.After(60 * time.Second):
+	e, state := await(func() error { return a.Ex.VerifProcess(fp.blocks[len(fp.blocks)-1], fp.conn.ID()) }, nil)
+	if state == "hang" {
 		return fmt.Errorf("hang"), true
 	}
+	return e, true
 }
 
 func doubleOffer(w *tj.Writer, r *rand.Rand, idx int) {
@@ -641,7 +1230,7 @@ func doubleOffer(w *tj.Writer, r *rand.Rand, idx int) {
 	}
 	sa, sb := slot, slot+1
 	for i := 0; i < fa; i++ {
-		if _, err := a.Extend(sa, 0); err != nil {
+		if _, err := a.Extend(sa, r.Intn(3)); err != nil {
 			fail(err)
 			return
 		}
@@ -655,7 +1244,7 @@ func doubleOffer(w *tj.Writer, r *rand.Rand, idx int) {
 		sb++
 	}
 	far := chainBlocks(b)
-	fp1, err := newFakePeer(append(corruptLast(a, far, P+good+1, cfg.NVal), far[P+good+2:]...), false)
+	fp1, err := newFakePeer(append(corruptLast(a, far, P+good+1, cfg.NVal), far[P+good+2:]...), -1, false)
 	if err != nil {
 		fail(err)
 		return
@@ -680,20 +1269,23 @@ func doubleOffer(w *tj.Writer, r *rand.Rand, idx int) {
 	}
 	tipBefore := a.Tip()
 	finBefore := mid.Fin
+	finIDs := [][]byte{}
+	for h := uint32(0); h <= finBefore; h++ {
+		hd, err := a.Chain.DataAccess().GetBlockHeaderByHeight(h)
+		if err != nil {
+			fail(err)
+			return
+		}
+		finIDs = append(finIDs, hd.ID)
+	}
 	// second peer: the node's own chain up to tip-1, then a fork of two blocks, the last one corrupt
-	c, err := node.New(cfg3(false), nil, ts)
+	ab := chainBlocks(a)
+	c, err := replica(cfg3(false), ts, ab[:len(ab)-1])
 	if err != nil {
 		fail(err)
 		return
 	}
 	defer c.Close()
-	ab := chainBlocks(a)
-	for _, blk := range ab[1 : len(ab)-1] {
-		if err := c.Ex.VerifProcess(blk, "12D3KooWverifpeer"); err != nil {
-			fail(err)
-			return
-		}
-	}
 	s2 := a.Slot.GetSlotNumber(tipBefore.Header.Timestamp) + 1
 	for i := 0; i < 2; i++ {
 		if _, err := c.Extend(s2, 0); err != nil {
@@ -703,20 +1295,21 @@ func doubleOffer(w *tj.Writer, r *rand.Rand, idx int) {
 		s2++
 	}
 	cb := chainBlocks(c)
-	fp2, err := newFakePeer(corruptLast(a, cb, len(cb)-1, cfg.NVal), false)
+	fp2, err := newFakePeer(corruptLast(a, cb, len(cb)-1, cfg.NVal), -1, false)
 	if err != nil {
 		fail(err)
 		return
 	}
 	defer fp2.conn.Stop()
 	offered := fp2.blocks[len(fp2.blocks)-1]
+	a.Drain()
 	perr, ok := offerFrom(a, fp2)
 	if !ok {
 		fail(perr)
 		return
 	}
 	if perr != nil && perr.Error() == "hang" {
-		viol("hang:sync:double", "process() of a block offered after an earlier failed sync did not return within 60 s", scenario)
+		viol("hang:sync:double", "process() of a block offered after an earlier failed sync did not return within 180 s", scenario)
 		return
 	}
 	if perr != nil && strings.HasPrefix(perr.Error(), "panic:") {
@@ -728,6 +1321,7 @@ func doubleOffer(w *tj.Writer, r *rand.Rand, idx int) {
 		viol("observe-after-sync", err.Error(), scenario)
 		return
 	}
+	finEvents := finalizeEvents(a, finBefore, after.Fin)
 	tip := a.Tip().Header
 	outcome := "partial"
 	if bytes.Equal(tip.ID, offered.Header.ID) {
@@ -738,19 +1332,41 @@ func doubleOffer(w *tj.Writer, r *rand.Rand, idx int) {
 	if len(a.Conn.BlacklistedPeers()) > 0 {
 		outcome += "+ban"
 	}
+	// the ids served for the heights that were final before the second offer (they include blocks of the first peer)
+	same := 1
+	for h := uint32(0); h <= finBefore; h++ {
+		hd, err := a.Chain.DataAccess().GetBlockHeaderByHeight(h)
+		if err != nil || !bytes.Equal(hd.ID, finIDs[h]) {
+			same = 0
+		}
+	}
 	finHdr, _ := a.Chain.DataAccess().GetBlockHeaderByHeight(finBefore)
 	f := map[string]interface{}{
 		"a": map[string]uint32{"h": tipBefore.Header.Height, "mhp": tipBefore.Header.MaxHeightPrevoted}, "b": map[string]uint32{"h": offered.Header.Height, "mhp": offered.Header.MaxHeightPrevoted},
 		"common": tipBefore.Header.Height - 1, "fin": finBefore, "n": 3, "genKnown": 1,
-		"slotGap": a.Slot.GetSlotNumber(uint32(time.Now().Unix())) - a.Slot.GetSlotNumber(finHdr.Timestamp),
+		"slotGap":   a.Slot.GetSlotNumber(uint32(time.Now().Unix())) - a.Slot.GetSlotNumber(finHdr.Timestamp),
 		"behaviour": "corrupt", "child": 0,
+	}
+	ext := map[string]int{"extended": -1, "twin": -1, "dump": -1}
+	if _, xerr := a.Extend(cfg.Now-5, 1); xerr != nil {
+		ext["extended"] = 0
+		scenario["extendError"] = xerr.Error()
+	} else {
+		ext["extended"] = 1
 	}
 	mu.Lock()
 	out.Offers++
 	out.Outcomes["double:"+outcome]++
 	out.Paths["near:corrupt:after-failed-sync"]++
-	w.Emit(map[string]interface{}{"ev": "offer", "f": f, "outcome": outcome, "finBefore": finBefore, "finAfter": after.Fin, "finalIdsSame": 1,
-		"scenario": scenario, "err": fmt.Sprint(perr), "temp": after.Temp})
+	if finBefore > uint32(P) {
+		out.Cov["double:final-blocks-of-first-peer"]++
+	}
+	if len(finEvents) > 0 {
+		out.Cov["finalize-events:offers-with-raise"]++
+		out.Cov["finalize-events:events"] += len(finEvents)
+	}
+	w.Emit(map[string]interface{}{"ev": "offer", "f": f, "outcome": outcome, "finBefore": finBefore, "finAfter": after.Fin, "finalIdsSame": same,
+		"scenario": scenario, "err": fmt.Sprint(perr), "temp": after.Temp, "finEvents": finEvents, "mhpcAfter": after.Mhpc, "ext": ext})
 	mu.Unlock()
 }
 
@@ -768,16 +1384,37 @@ func main() {
 	nh, _ := strconv.Atoi(os.Args[4])
 	no, _ := strconv.Atoi(os.Args[5])
 	peersTable(os.Args[1])
-	// the serving node rate-limits every procedure (100 messages per 10 s and peer, 10 penalty points above that, ban at
-	// 100 points): a fresh server and client for every 90 calls keeps the client an ordinary, well-behaved peer
-	for done := 0; done < nh; done += 90 {
-		k := nh - done
-		if k > 90 {
-			k = 90
-		}
-		handlers(w, r, k)
-	}
 	var wg sync.WaitGroup
+	// malformed requests: every case on a server of its own, next to everything else
+	for _, kind := range malformedKinds {
+		kind := kind
+		wg.Add(1)
+		go func() {
+			defer wg.Done()
+			defer func() {
+				if e := recover(); e != nil {
+					mu.Lock()
+					out.Errors = append(out.Errors, fmt.Sprintf("malformed %s: harness panic %v", kind, e))
+					mu.Unlock()
+				}
+			}()
+			malformed(w, kind)
+		}()
+	}
+	// the serving node rate-limits every procedure (100 messages per 10 s and peer, 10 penalty points above that, ban at
+	// 100 points): a fresh server and client for every 75 cases (+ the fixed cases on the first one) keeps the client an
+	// ordinary, well-behaved peer.  The first server keeps 8 blocks in its cache: nearly every look-up goes to the database.
+	for done, i := 0, 0; done < nh; done, i = done+75, i+1 {
+		k := nh - done
+		if k > 75 {
+			k = 75
+		}
+		cache := 0
+		if i%2 == 0 {
+			cache = 8
+		}
+		handlers(w, r, k, cache, i == 0)
+	}
 	sem := make(chan struct{}, 6)
 	for i := 0; i < no; i++ {
 		i := i
@@ -826,11 +1463,11 @@ func main() {
 			defer func() {
 				if e := recover(); e != nil {
 					mu.Lock()
-					out.Errors = append(out.Errors, fmt.Sprintf("two peers %d: harness panic %v", i, e))
+					out.Errors = append(out.Errors, fmt.Sprintf("several peers %d: harness panic %v", i, e))
 					mu.Unlock()
 				}
 			}()
-			twoPeers(w, rr, i)
+			severalPeers(w, rr, i)
 		}()
 	}
 	wg.Wait()
@@ -838,14 +1475,21 @@ func main() {
 	tj.WriteJSON(os.Args[3], out)
 }
 
-// ---------------------------------------------------------------- two honest peers
-// The block that starts a block synchronisation comes from peer T; another connected honest peer B has the better chain
-// (another fork of the common prefix).  The node selects B as the best peer - and has to fetch the blocks from B: it ends on
-// B's chain.
-func twoPeers(w *tj.Writer, r *rand.Rand, idx int) {
+// ---------------------------------------------------------------- several honest peers
+// The block that starts a block synchronisation comes from peer T; the node asks every connected peer for its tip and
+// selects one by the rule of the statement (spec/Sync.tla BestPeers, evaluated by SyncTrace.tla on the tips the peers
+// really have) - and has to fetch the blocks from that peer: it ends on that peer's chain.  Variants:
+//
+//	0 better   : B is better than T in maxHeightPrevoted and in height
+//	1 disagree : T is a long fork forged by one validator (higher, low maxHeightPrevoted), B is shorter and signed by all
+//	2 silent   : variant 0 + a connected peer whose getLastBlock fails
+//	3 common-id: two peers on B's tip, T on a sibling of that tip (same height, same maxHeightPrevoted)
+func severalPeers(w *tj.Writer, r *rand.Rand, idx int) {
+	variant := idx % 4
+	vname := []string{"better", "disagree", "silent", "common-id"}[variant]
 	fail := func(e error) {
 		mu.Lock()
-		out.Errors = append(out.Errors, fmt.Sprintf("two peers %d: %v", idx, e))
+		out.Errors = append(out.Errors, fmt.Sprintf("several peers %d (%s): %v", idx, vname, e))
 		mu.Unlock()
 	}
 	cfg := cfg3(true)
@@ -864,6 +1508,10 @@ func twoPeers(w *tj.Writer, r *rand.Rand, idx int) {
 	P := 1 + r.Intn(3)
 	ft := 9 + r.Intn(4)      // the triggering peer: far ahead of the node (block sync)
 	fb := ft + 2 + r.Intn(4) // the best peer: longer still, on another fork
+	if variant == 1 {
+		fb = 7 + r.Intn(3)
+		ft = fb + 2 + r.Intn(3)
+	}
 	slot := 1
 	for i := 0; i < P; i++ {
 		for _, n := range nodes {
@@ -875,13 +1523,6 @@ func twoPeers(w *tj.Writer, r *rand.Rand, idx int) {
 		slot++
 	}
 	st, sb := slot, slot
-	for i := 0; i < ft; i++ {
-		if _, err := t.Extend(st, 0); err != nil {
-			fail(err)
-			return
-		}
-		st++
-	}
 	for i := 0; i < fb; i++ {
 		// the first block of B's branch differs from T's (one transaction), the rest follows
 		ntx := 0
@@ -894,36 +1535,94 @@ func twoPeers(w *tj.Writer, r *rand.Rand, idx int) {
 		}
 		sb++
 	}
-	if bytes.Equal(t.Tip().Header.ID, b.Tip().Header.ID) || b.Tip().Header.Height <= t.Tip().Header.Height {
-		fail(fmt.Errorf("the two peer chains do not differ as intended"))
+	peers := []*node.Node{t, b}
+	if variant == 3 {
+		// T: B's chain without its last block, then a block of its own in the next slot (another generator)
+		bb := chainBlocks(b)
+		for _, blk := range bb[P+1 : len(bb)-1] {
+			if err := t.Ex.VerifProcess(blk, "12D3KooWverifpeer"); err != nil {
+				fail(err)
+				return
+			}
+		}
+		if _, err := t.Extend(sb, 1); err != nil {
+			fail(err)
+			return
+		}
+		b2, err := replica(cfg3(true), ts, bb)
+		if err != nil {
+			fail(err)
+			return
+		}
+		defer b2.Close()
+		peers = append(peers, b2)
+	} else {
+		for i := 0; i < ft; i++ {
+			if _, err := t.Extend(st, 0); err != nil {
+				fail(err)
+				return
+			}
+			if variant == 1 {
+				st += 3 // always the same validator: no prevotes beyond the common prefix
+			} else {
+				st++
+			}
+		}
+	}
+	if bytes.Equal(t.Tip().Header.ID, b.Tip().Header.ID) {
+		fail(fmt.Errorf("the peer chains do not differ as intended"))
 		return
 	}
-	if err := connect(a.Conn, t); err != nil {
-		fail(err)
-		return
+	for _, p := range peers {
+		if err := connect(a.Conn, p); err != nil {
+			fail(err)
+			return
+		}
 	}
-	if err := connect(a.Conn, b); err != nil {
-		fail(err)
-		return
+	if variant == 2 {
+		// a connected peer that cannot tell its tip
+		c, _ := newClient()
+		c.RegisterRPCHandler(lsync.RPCEndpointGetLastBlock, func(w p2p.ResponseWriter, r *p2p.Request) { w.Error(fmt.Errorf("not available")) })          //nolint
+		c.RegisterRPCHandler(lsync.RPCEndpointGetHighestCommonBlock, func(w p2p.ResponseWriter, r *p2p.Request) { w.Error(fmt.Errorf("not available")) }) //nolint
+		c.RegisterRPCHandler(lsync.RPCEndpointGetBlocksFromID, func(w p2p.ResponseWriter, r *p2p.Request) { w.Error(fmt.Errorf("not available")) })       //nolint
+		if err := c.Start(crypto.RandomBytes(32)); err != nil {
+			fail(err)
+			return
+		}
+		defer c.Stop()
+		addrs, err := c.MultiAddress()
+		if err != nil || len(addrs) == 0 {
+			fail(fmt.Errorf("silent peer has no address"))
+			return
+		}
+		ai, _ := p2p.AddrInfoFromMultiAddr(addrs[0])
+		if err := a.Conn.Connect(context.Background(), *ai); err != nil {
+			fail(err)
+			return
+		}
 	}
 	time.Sleep(80 * time.Millisecond)
 	aTip := a.Tip().Header
 	offered := t.Tip()
-	scenario := map[string]interface{}{"twoPeers": true, "P": P, "forkT": ft, "forkB": fb}
-	done := make(chan error, 1)
-	go func() {
-		defer func() {
-			if e := recover(); e != nil {
-				done <- fmt.Errorf("panic: %v", e)
-			}
-		}()
-		done <- a.Ex.VerifProcess(offered, t.Conn.ID())
-	}()
-	var perr error
-	select {
-	case perr = <-done:
-	case <-time.After(60 * time.Second):
-		viol("hang:sync:two-peers", "process() of a block offered by one of two honest peers did not return within 60 s", scenario)
+	// the tips as the specification sees them: one label per distinct tip id
+	label := map[string]int{}
+	tips := []map[string]uint32{}
+	for _, p := range peers {
+		h := p.Tip().Header
+		if label[string(h.ID)] == 0 {
+			label[string(h.ID)] = len(label) + 1
+		}
+		tips = append(tips, map[string]uint32{"mhp": h.MaxHeightPrevoted, "h": h.Height, "id": uint32(label[string(h.ID)])})
+	}
+	th, bh := t.Tip().Header, b.Tip().Header
+	scenario := map[string]interface{}{"severalPeers": true, "variant": vname, "P": P, "forkT": ft, "forkB": fb, "tips": tips}
+	if aTip.Height+6 >= th.Height {
+		fail(fmt.Errorf("the triggering block is not far enough ahead for a block synchronisation"))
+		return
+	}
+	perr, state := await(func() error { return a.Ex.VerifProcess(offered, t.Conn.ID()) }, nil)
+	if state == "hang" {
+		viol("hang:sync:two-peers", "process() of a block offered by one of several honest peers did not return within 180 s", scenario)
 		return
 	}
 	if perr != nil && strings.HasPrefix(perr.Error(), "panic:") {
@@ -932,18 +1631,36 @@ func twoPeers(w *tj.Writer, r *rand.Rand, idx int) {
 	}
 	tip := a.Tip().Header
 	outcome := "elsewhere"
+	tipLabel := -1
+	if l := label[string(tip.ID)]; l > 0 {
+		tipLabel = l
+	}
 	switch {
-	case bytes.Equal(tip.ID, b.Tip().Header.ID):
+	case bytes.Equal(tip.ID, bh.ID):
 		outcome = "best"
-	case bytes.Equal(tip.ID, t.Tip().Header.ID):
+	case bytes.Equal(tip.ID, th.ID):
 		outcome = "trigger"
 	case bytes.Equal(tip.ID, aTip.ID):
 		outcome = "own"
+		tipLabel = 0
+	}
+	banned := len(a.Conn.BlacklistedPeers())
+	noBan := 1
+	if variant == 2 {
+		noBan = 0 // how a peer that does not answer is treated is not fixed
 	}
 	mu.Lock()
 	out.Offers++
 	out.Outcomes["two-peers:"+outcome]++
-	w.Emit(map[string]interface{}{"ev": "offer2", "outcome": outcome, "tip": map[string]uint32{"h": tip.Height}, "best": map[string]uint32{"h": b.Tip().Header.Height},
-		"trigger": map[string]uint32{"h": t.Tip().Header.Height}, "scenario": scenario, "err": fmt.Sprint(perr)})
+	out.Cov["several-peers:"+vname]++
+	if variant == 1 && bh.MaxHeightPrevoted > th.MaxHeightPrevoted && bh.Height < th.Height {
+		out.Cov["several-peers:mhp-and-height-disagree"]++
+	}
+	if variant == 3 && bh.MaxHeightPrevoted == th.MaxHeightPrevoted && bh.Height == th.Height {
+		out.Cov["several-peers:decided-by-most-common-id"]++
+	}
+	w.Emit(map[string]interface{}{"ev": "offer2", "outcome": outcome, "peers": tips, "tip": tipLabel, "banned": banned, "noBan": noBan,
+		"tipH": map[string]uint32{"h": tip.Height}, "best": map[string]uint32{"h": bh.Height},
+		"trigger": map[string]uint32{"h": th.Height}, "scenario": scenario, "err": fmt.Sprint(perr)})
 	mu.Unlock()
 }
